@@ -46,7 +46,7 @@ def _names(rng, n):
     while len(out) < n:
         if rng.random() < 0.04:
             # unusual but legal (structurally typed) names: empty, blank, digits only, inner blanks
-            nm = rng.choice(["", " ", "0", "core 0", "-", "A b"])
+            nm = rng.choice(["", " ", "0", "core 0", "-", "A b", "a  b", "u" * 95, "Stage " * 16 + "x", "{}", "{{f}}", "$u", "%s"])
         else:
             nm = rng.choice("abcxyzABQ") + rng.choice(["", str(rng.randint(0, 20))]) + rng.choice(["", "", "u", "X"])
         if nm.lower() not in used:
